@@ -31,6 +31,7 @@ NO_PANIC = (
     ' as core::ops::DerefMut>::deref_mut', ' as core::cmp::PartialEq', ' as core::default::Default>::default', ' as core::convert::TryInto<',
     'alloy_sol_types::', 'alloy_primitives::', 'ruint::', 'soroban_sdk::Bytes::to_alloc_vec', 'soroban_sdk::Bytes::from_slice', 'soroban_sdk::BytesN::<32>::from_array',
     'soroban_sdk::String::from_str', 'core::num::<impl i128>::from_le_bytes', 'core::slice::<impl [u8]>::len', 'core::slice::<impl [u8]>::is_empty',
+    'core::slice::<impl [u8]>::get::<',
     'alloc::string::String::from_utf8', 'soroban_sdk::String::len', 'impl core::convert::TryFrom<alloy_primitives::Uint<256, 4>> for i128>::try_from', ' as core::ops::Try>::branch', ' as core::ops::FromResidual',
 )
 GUARDED_PANIC = {
@@ -38,6 +39,7 @@ GUARDED_PANIC = {
     'core::slice::index::<impl core::ops::Index<core::ops::RangeTo<usize>> for [u8]>::index': 'as_le_slice()[..16] of a 32-byte Uint<256,4>',
     'core::slice::index::<impl core::ops::Index<core::ops::RangeFrom<usize>> for [u8]>::index': 'as_le_slice()[16..] of a 32-byte Uint<256,4>',
     'core::slice::<impl [u8]>::copy_from_slice': '16-byte array from a 16-byte sub-slice',
+    'core::slice::<impl [u8]>::split_at': 'as_le_slice().split_at(16) of a 32-byte Uint<256,4> (argument checked)',
 }
 
 
@@ -196,6 +198,8 @@ def check(P, rep):
         # dispatch: each struct decode lies behind type == its tag, and behind the length guard
         lens = guard_sel(g, lambda c_: c_[0] == 'cmp' and c_[1] == 'le' and const_int(core(c_[2])) == 32 and core(c_[3])[0] == 'call' and core(c_[3])[1].endswith('[u8]>::len')
                          and core(core(c_[3])[2][0]) == pl)
+        # the non-panicking spelling of the same guard: payload.get(..32) / payload.get(0..32) is Some
+        lens += guard_sel(g, lambda c_: c_[0] == 'present' and is_prefix_get(c_[1], pl, 32))
         rep.floor('%s len >= 32 guard' % nm, len(lens), 1)
         for ctx, bb, t in g.call_nodes():
             m_ = re.search(r'<abi::(\w+) as alloy_sol_types::SolValue>::abi_decode_params', t['callee'])
@@ -233,6 +237,14 @@ def check(P, rep):
             if any(p in cal for p in NO_PANIC):
                 continue
             hit = [k for k in GUARDED_PANIC if cal.endswith(k)]
+            if hit and hit[0].endswith('split_at'):
+                for ctx2, bb2, t2 in g.call_nodes():
+                    if t2['callee'] == cal:
+                        a2 = [core(norm(x)) for x in g.arg_terms(ctx2, bb2)]
+                        oksp = len(a2) == 2 and const_int(a2[1]) is not None and 0 <= const_int(a2[1]) <= 32 and a2[0][0] == 'field' and a2[0][1] == 'amount' \
+                            and decode_call(a2[0][2], 'InterchainTransfer') is not None
+                        rep.check(oksp, 'C10.R7', 'decode:%s:split_at-in-range' % level, 'split_at is applied to the 32 little-endian bytes of the decoded amount with a '
+                                  'constant mid <= 32 (cannot panic)', site(g, ctx2, bb2), '; '.join(fmt(x) for x in a2)[:200])
             if hit:
                 rep.ok('C10.R7', 'may-panic leaf allowed: %s — %s' % (hit[0].split('::')[-2] if '::' in hit[0] else hit[0], GUARDED_PANIC[hit[0]]), site(g, ctx, bb))
                 continue
@@ -357,6 +369,17 @@ def is_try_from_amount(t):
     return False
 
 
+def is_prefix_get(t, pl, n):
+    """pl.get(..n) or pl.get(0..n)  (Some iff pl.len() >= n)"""
+    t = core(t)
+    if not (t[0] == 'call' and re.search(r'\[u8\]>::get::<core::ops::Range(To)?<usize>>$', t[1]) and len(t[2]) == 2 and core(t[2][0]) == pl):
+        return False
+    rng = fields_of(core(t[2][1])) or {}
+    if const_int(core(rng.get('end', ('u',)))) != n:
+        return False
+    return 'start' not in rng or const_int(core(rng['start'])) == 0
+
+
 def is_half(t, which):
     """from_le_bytes of the low (RangeTo ..16) / high (RangeFrom 16..) half of as_le_slice(decoded amount)"""
     t = core(t)
@@ -366,6 +389,11 @@ def is_half(t, which):
     if m[0] != 'mut' or not m[1].endswith('copy_from_slice') or not m[3]:
         return False
     src = core(m[3][0])
+    if src[0] == 'field' and src[1] == ('0' if which == 'RangeTo' else '1') and core(src[2])[0] == 'call' and core(src[2])[1].endswith('[u8]>::split_at'):
+        # as_le_slice().split_at(16): .0 = low half, .1 = high half
+        sp = core(src[2])
+        amt = core(sp[2][0])
+        return const_int(core(sp[2][1])) == 16 and amt[0] == 'field' and amt[1] == 'amount' and decode_call(amt[2], 'InterchainTransfer') is not None
     if not (src[0] == 'call' and ('core::ops::%s<usize>> for [u8]>::index' % which) in src[1]):
         return False
     rng = fields_of(core(src[2][1])) or {}
